@@ -826,15 +826,17 @@ func (d *refreshDebouncer) flusher() {
 		case <-d.refreshNowCh:
 		case <-d.timer.C:
 		case <-d.quit:
+			d.shutdown()
+			return
 		}
 		d.mu.Lock()
 		if d.stopped {
-			if d.broadcaster != nil {
-				d.broadcaster.stop()
-				d.broadcaster = nil
-			}
-			d.timer.Stop()
 			d.mu.Unlock()
+			// stop() has set stopped and is sending on quit to synchronise with us.
+			// We were woken by another channel, so take that send before exiting,
+			// otherwise stop() blocks forever.
+			<-d.quit
+			d.shutdown()
 			return
 		}
 
@@ -859,6 +861,17 @@ func (d *refreshDebouncer) flusher() {
 			curBroadcaster.broadcast(err)
 		}
 	}
+}
+
+// shutdown releases the waiting listeners and the timer once the debouncer is stopped.
+func (d *refreshDebouncer) shutdown() {
+	d.mu.Lock()
+	defer d.mu.Unlock()
+	if d.broadcaster != nil {
+		d.broadcaster.stop()
+		d.broadcaster = nil
+	}
+	d.timer.Stop()
 }
 
 func (d *refreshDebouncer) stop() {
